@@ -305,26 +305,27 @@ let ghost col_g = ( row_col & 63 ) as int ;
 let k = 1 << self . lg_k ;
 let c32pre = ( self . num_coupons as u64 ) << 5 ;
 debug_assert! ( c32pre < 3 * k ) ;
+let ghost mut mid = * self ;
 let is_novel = self . mut_surprising_value_table ( ) . maybe_insert ( row_col ) ;
+if is_novel {
 proof {
+mid = * self ;
 assert forall | r : int , c : int | 0 <= r < old ( self ) . k ( ) && 0 <= c < 64 implies /*@C05.update_sparse.onebit*/ self . mbit ( r , c ) == ( old ( self ) . mbit ( r , c ) || ( r == row_g && c == col_g ) ) by {
 lemma_rc_inj ( r , c , row_g , col_g ) ;
 }
-assert ( /*@C05.update_sparse.count*/ is_novel == ! old ( self ) . mbit ( row_g , col_g ) ) ;
+assert ( /*@C05.update_sparse.count*/ ! old ( self ) . mbit ( row_g , col_g ) ) ;
 assert forall | x : u32 | # [ trigger ] self . tbl ( ) . contains ( x ) implies ( x >> 6 ) < self . k ( ) by {
 if x != row_col {
 assert ( old ( self ) . tbl ( ) . contains ( x ) ) ;
 }
 }
 }
-let ghost mid = * self ;
-if is_novel {
 self . num_coupons += 1 ;
 self . update_hip ( row_col ) ;
 let c32post = ( self . num_coupons as u64 ) << 5 ;
 proof {
 let c = self . num_coupons as u64 ;
-assert ( c <= 0xffff_ffff ==> ( c << 5 ) == c * 32 ) by ( bit_vector ) ;
+assert ( c <= 0xffff_ffff ==> ( c << 5 ) == c * 32 && ( c << 5 ) == 32 * c ) by ( bit_vector ) ;
 assert ( self . tbl ( ) == mid . tbl ( ) ) ;
 }
 if c32post >= 3 * k {
@@ -335,8 +336,21 @@ self . promote_sparse_to_windowed ( ) ;
 }
 }
 proof {
+if self . num_coupons == old ( self ) . num_coupons {
+assert forall | r : int , c : int | 0 <= r < old ( self ) . k ( ) && 0 <= c < 64 implies /*@C05.update_sparse.onebit*/ self . mbit ( r , c ) == ( old ( self ) . mbit ( r , c ) || ( r == row_g && c == col_g ) ) by {
+lemma_rc_inj ( r , c , row_g , col_g ) ;
+}
+assert ( /*@C05.update_sparse.count*/ old ( self ) . mbit ( row_g , col_g ) ) ;
+assert forall | x : u32 | # [ trigger ] self . tbl ( ) . contains ( x ) implies ( x >> 6 ) < self . k ( ) by {
+if x != row_col {
+assert ( old ( self ) . tbl ( ) . contains ( x ) ) ;
+}
+}
+}
+else {
 assert forall | r : int , c : int | 0 <= r < old ( self ) . k ( ) && 0 <= c < 64 implies /*@C05.update_sparse.onebit*/ self . mbit ( r , c ) == ( old ( self ) . mbit ( r , c ) || ( r == row_g && c == col_g ) ) by {
 assert ( self . mbit ( r , c ) == mid . mbit ( r , c ) ) ;
+}
 }
 }
 }
